@@ -118,13 +118,17 @@ def nonblank_concat(printed, toks, idx, n):
 
 
 def token_sublist(out, toks):
-    it = iter([t for _, t in toks])
-    # greedy: output must be a concatenation of a subsequence of the input tokens
-    pos = 0
-    for t in it:
-        if out.startswith(t, pos):
-            pos += len(t)
-    return pos == len(out)
+    """is `out` the concatenation of some subsequence of the input tokens?  (exact search, not greedy: 'define' is a
+    prefix of 'defineint')"""
+    strs = [t for _, t in toks]
+    reach = {0}
+    for t in strs:
+        new = set(reach)
+        for p in reach:
+            if out.startswith(t, p):
+                new.add(p + len(t))
+        reach = new
+    return len(out) in reach
 
 
 # ------------------------------------------------------------------ inputs
